@@ -127,6 +127,7 @@ package netty
 //@   ensures none: implies(nemitted() == 0, forall(l, 0, pos(hc), node(plOf(hc), l).cast2Outbound == nil))
 //@   ensures_panic routed: nemitted() == 1 && evis(0, "OutboundHandler.HandleWrite")
 
+//@ property C03 C07
 //@ func (*handlerContext).Write
 //@   requires hc != nil && is(hc.pipeline, *pipeline) && WF(plOf(hc)) && inlist(plOf(hc), hc) && plOf(hc).channel != nil
 //@   loop 0 modifies none
@@ -139,6 +140,7 @@ package netty
 //@   ensures target: implies(count("OutboundHandler.HandleWrite") == 1, evis(0, "OutboundHandler.HandleWrite") && is(evarg(0, 0), *handlerContext) && evarg(0, 1) == message && at(0, inlist(plOf(hc), as(evarg(0, 0), *handlerContext)) && pos(as(evarg(0, 0), *handlerContext)) < pos(hc) && as(evarg(0, 0), *handlerContext).cast2Outbound != nil && evrecv(0) == as(evarg(0, 0), *handlerContext).cast2Outbound && forall(l, pos(as(evarg(0, 0), *handlerContext))+1, pos(hc), node(plOf(hc), l).cast2Outbound == nil)))
 //@   ensures none: implies(count("OutboundHandler.HandleWrite") == 0, forall(l, 0, pos(hc), node(plOf(hc), l).cast2Outbound == nil))
 
+//@ property C03 C07
 //@ func (*handlerContext).Trigger
 //@   requires hc != nil && is(hc.pipeline, *pipeline) && WF(plOf(hc)) && inlist(plOf(hc), hc) && plOf(hc).channel != nil
 //@   loop 0 modifies none
@@ -153,6 +155,7 @@ package netty
 
 // ---------------------------------------------------------------------------
 // pipeline queries
+//@ property C03
 //@ property C03
 //@ func (*pipeline).Size
 //@   requires p != nil
